@@ -127,7 +127,14 @@ def draw(rng, nonfinite=False, moves=True, weights=None):
             kw[rng.choice(["S", "R", "s", "r"])] = rng.choice(TEMP_GRID)
         elif rng.random() < 0.1:
             kw["P"] = rng.choice([1, 2.5])
-        return Op("halt", (mode,), kw, valid=mode in HALT_MODES, needs_tool_off=True,
+        valid = mode in HALT_MODES
+        if kw and next(iter(kw)).upper() in ("S", "R") and rng.random() < 0.1:
+            # a wrongly typed word (a number read from a file as text): refused by the type checks,
+            # possibly after the call has begun -- the state it leaves behind is a reachable state
+            k = next(iter(kw))
+            kw[k] = str(kw[k])
+            valid = False
+        return Op("halt", (mode,), kw, valid=valid, needs_tool_off=True,
                   needs_coolant_off=True, tag="halt:" + mode)
     if kind == "pause":
         return Op("pause", (rng.random() < 0.5,), needs_tool_off=True, needs_coolant_off=True)
